@@ -259,11 +259,39 @@ func TestRecoveryScript(t *testing.T) {
 }
 
 // genRecoveryScript is the case generator of scriptCheck (shared by the rapid run and the native fuzz target).
+// greedySegments: statements (well-formed and truncated ones) whose parse functions read "whatever comes
+// next": a unit after INTERVAL <number>, mode words up to a closing parenthesis, the words after SHOW. In a
+// script they must not reach into the next statement. Tokens are separated by single blanks.
+var greedySegments = []string{
+	"SELECT NOW ( ) - INTERVAL 7",
+	"SELECT a FROM t1 WHERE b > INTERVAL 7",
+	"SELECT a FROM t1 WHERE b > INTERVAL 7 DAY",
+	"SELECT DATE_ADD ( NOW ( ) , INTERVAL 30",
+	"SELECT a FROM t1 WHERE MATCH ( a ) AGAINST ( 'q' IN BOOLEAN MODE )",
+	"SELECT a FROM t1 WHERE MATCH ( a ) AGAINST ( 'q' IN BOOLEAN MODE",
+	"SHOW TABLES",
+	"SHOW TABLES FROM",
+	"SHOW CREATE",
+	"SHOW CREATE TABLE t1",
+	"SHOW",
+	"DESCRIBE t1",
+	"DESCRIBE",
+	"REPLACE INTO t1 VALUES ( 1 )",
+	"REPLACE INTO t1 VALUES ( 1",
+}
+
 func genRecoveryScript(rt *rapid.T) ScriptCase {
 	n := rapid.IntRange(1, 6).Draw(rt, "nseg")
 	var c ScriptCase
 	var vec []string
 	for i := 0; i < n; i++ {
+		if rapid.IntRange(0, 5).Draw(rt, "greedyseg") == 5 {
+			sql := rapid.SampledFrom(greedySegments).Draw(rt, "greedy")
+			_, err := gosqlx.Parse(sql)
+			c.Segments = append(c.Segments, Segment{SQL: sql, NToks: len(strings.Fields(sql)), Bad: err != nil})
+			vec = append(vec, "greedy")
+			continue
+		}
 		f := sqlgen.AllFeatures()
 		f.Flat = true
 		f.MaxDepth = 2
